@@ -605,7 +605,7 @@ func TestPropValidationTotalAndSound(t *testing.T) {
 	sub := stats.NewSub("near-valid-objects", "rapid: a valid UpstreamCluster (shared generator: servers, policies, schemas incl. global members, serving TLS material, annotations) with 0-4 random field edits (junk / unparseable / mixed-scheme endpoints, any combination of the five flow-control members with values from {0,1,-1,2,5,100,-100,MaxInt32,MinInt32}, unknown subset endpoints / schema names, empty rules, junk strategies and log modes, client config and serving TLS material with garbage / mismatched PEM and bundles mixing good, unparseable and truncated blocks, https switch, invalid names, junk feature-gate annotations, global strategy without global member, schema with only a global member); oracle: validation never panics; an object refused on create is also refused as an update of an object that differs only in metadata; accepted => every apply stage succeeds; accepted => the must-reject predicate is empty; non-trivial = an edited object (accepted or rejected); distinct by FNV-64 of the object")
 	remote.VerifSetWaitAcquireTimeout(1e6)
 	var prevAccepted *proxyv1alpha1.UpstreamCluster
-	stats.Check(t, stats.N(8000, 40000), func(t *rapid.T) {
+	stats.Check(t, stats.N(16000, 40000), func(t *rapid.T) {
 		c := gen.GenValidCluster(t, "base", "alpha", gen.ObjOpts{Endpoints: []string{"http://127.0.0.1:1", "http://127.0.0.1:2"}, ServerNames: []string{"a.example.com"}, PKI: mats, SchemaNames: []string{"s1", "s2"}})
 		edits := mutate(t, c)
 		acceptedAsUpdate = false
